@@ -22,6 +22,11 @@ pub struct Unit {
     pub bound: usize,
     /// (j, k): explore only the subtrees of the root execution's children whose index is j mod k
     pub slice: (usize, usize),
+    /// run the executions in the binary built with debug assertions (profile `dbgassert`)
+    pub dbg: bool,
+    /// a worker that dies (abort, signal) while executing is an observation of this scenario
+    /// rather than machinery trouble: "does not panic or abort" is part of the property
+    pub death_is_violation: bool,
 }
 
 impl Unit {
@@ -32,6 +37,8 @@ impl Unit {
             cases: 0..1,
             bound,
             slice: (0, 1),
+            dbg: false,
+            death_is_violation: false,
         }
     }
     pub fn slice(mut self, j: usize, k: usize) -> Unit {
@@ -142,15 +149,19 @@ pub struct WorkerProc {
     scenario: String,
     params: Params,
     core: usize,
+    dbg: bool,
 }
 
+pub const DBG_EXE: &str = "/verif/target/dbgassert/circ-mc";
+
 impl WorkerProc {
-    pub fn new(scenario: &str, params: &Params, core: usize) -> Self {
+    pub fn new(scenario: &str, params: &Params, core: usize, dbg: bool) -> Self {
         WorkerProc {
             child: None,
             scenario: scenario.to_string(),
             params: params.clone(),
             core,
+            dbg,
         }
     }
 
@@ -158,7 +169,11 @@ impl WorkerProc {
         if self.child.is_some() {
             return;
         }
-        let exe = std::env::current_exe().expect("current_exe");
+        let exe = if self.dbg {
+            std::path::PathBuf::from(DBG_EXE)
+        } else {
+            std::env::current_exe().expect("current_exe")
+        };
         let mut c = Command::new(exe)
             .arg("worker")
             .arg(&self.scenario)
@@ -166,7 +181,7 @@ impl WorkerProc {
             .arg(self.core.to_string())
             .stdin(Stdio::piped())
             .stdout(Stdio::piped())
-            .stderr(Stdio::inherit())
+            .stderr(if self.dbg { Stdio::null() } else { Stdio::inherit() })
             .spawn()
             .expect("spawn worker");
         let stdin = c.stdin.take().unwrap();
@@ -243,7 +258,7 @@ pub struct RunCtx {
 
 /// Explores one unit completely (or until the deadline).
 pub fn run_unit(u: &Unit, core: usize, ctx: &RunCtx) {
-    let mut w = WorkerProc::new(&u.scenario, &u.params, core);
+    let mut w = WorkerProc::new(&u.scenario, &u.params, core, u.dbg);
     let mut st = ScenStats {
         bound: u.bound,
         units: 1,
@@ -260,6 +275,38 @@ pub fn run_unit(u: &Unit, core: usize, ctx: &RunCtx) {
             }
             let r = match w.run(case, &prefix, false) {
                 Ok(r) => r,
+                Err(e) if u.death_is_violation => {
+                    // the execution killed its process: report it like a violation of the
+                    // property under check, then go on with the next case
+                    st.executions += 1;
+                    let f = Found {
+                        prop: ctx.prop.clone(),
+                        kind: "process-abort".to_string(),
+                        detail: format!("the process running this execution died ({}){}", e, if u.dbg { " in the build with debug assertions" } else { "" }),
+                        op: String::new(),
+                        scenario: u.scenario.clone(),
+                        params: u.params.clone(),
+                        case,
+                        choices: prefix.iter().map(|c| (b'0' + c) as char).collect(),
+                        hash: String::new(),
+                        bound: u.bound,
+                    };
+                    let ki = ctx.known.iter().position(|k| known_match(k, &f.prop, &f.scenario, &f.kind));
+                    let mut a = ctx.agg.lock().unwrap();
+                    match ki {
+                        Some(i) => *a.known_hits.entry(i).or_insert(0) += 1,
+                        None => {
+                            a.found.push(f);
+                            if a.found.len() >= ctx.max_violations {
+                                a.stop = true;
+                            }
+                            st.capped = true;
+                            drop(a);
+                            break 'cases;
+                        }
+                    }
+                    continue;
+                }
                 Err(e) => {
                     ctx.agg.lock().unwrap().machinery.push(format!(
                         "{} [{}] case {} prefix {}: {}",
@@ -356,7 +403,7 @@ pub fn run_unit(u: &Unit, core: usize, ctx: &RunCtx) {
                         None => true,
                     };
                     if need_validation {
-                        if let Err(e) = validate(&f, core) {
+                        if let Err(e) = validate(&f, core, u.dbg) {
                             ctx.agg.lock().unwrap().machinery.push(e);
                             st.capped = true;
                             break 'cases;
@@ -434,10 +481,10 @@ fn push_children(stack: &mut Vec<Vec<u8>>, dec: &[crate::sched::Dec], prefix: &[
 }
 
 /// Re-executes a violating schedule twice in fresh processes: same verdict, same trace.
-pub fn validate(f: &Found, core: usize) -> Result<(), String> {
+pub fn validate(f: &Found, core: usize, dbg: bool) -> Result<(), String> {
     let prefix: Vec<u8> = f.choices.bytes().map(|b| b - b'0').collect();
     for round in 0..2 {
-        let mut w = WorkerProc::new(&f.scenario, &f.params, core);
+        let mut w = WorkerProc::new(&f.scenario, &f.params, core, dbg);
         let r = w.run(f.case, &prefix, false).map_err(|e| {
             format!(
                 "replay {} of {} [{}] died: {}",
@@ -479,6 +526,7 @@ pub fn replay_json(f: &Found) -> Value {
         "choices": f.choices,
         "verdict": {"kind": f.kind, "detail": f.detail, "op": f.op},
         "trace_hash": f.hash,
+        "dbg": f.params.get("dbg", 0) == 1,
     })
 }
 
